@@ -155,11 +155,23 @@ partial def genBraceTree (sym : String) (depth : Nat) (top : Bool) (rootSl : Str
     let body ← pickA braceLeafPool
     let t := sym ++ "{" ++ body ++ "}"
     pure (t, "L<" ++ t ++ ">")
-  else
+  else if k < 8 || depth = 0 then
     let (l, sl) ← genBraceTree sym (depth - 1) false ""
     let (r, sr) ← genBraceTree sym (depth - 1) false ""
     let o ← pickA #["AND", "OR", "XOR"]
     pure ("{" ++ l ++ " [" ++ o ++ "] " ++ r ++ "}", "C[" ++ o ++ "|" ++ rootSl ++ "|](" ++ sl ++ ")(" ++ sr ++ ")")
+  else
+    -- a chain of three or four operands with one operator: nested to the left
+    let n ← range 3 4
+    let o ← pickA #["AND", "OR", "XOR"]
+    let (t0, s0) ← genBraceTree sym (depth - 1) false ""
+    let mut text := t0
+    let mut spec := s0
+    for j in [1:n] do
+      let (t, sp) ← genBraceTree sym (depth - 1) false ""
+      text := text ++ " [" ++ o ++ "] " ++ t
+      spec := "C[" ++ o ++ "|" ++ (if j + 1 = n then rootSl else "") ++ "|](" ++ spec ++ ")(" ++ sp ++ ")"
+    pure ("{" ++ text ++ "}", spec)
 
 def genComboBraceSpecCases (tier : String) (seed : Nat) : Array Case := Id.run do
   let n := if tier = "thorough" then 600 else 80
